@@ -138,13 +138,22 @@ def standin_arith_edges(tier, seed):
 
 
 def standin_range_edges(tier, seed):
+    triples = [(0, 1, 3), (1, 2, 10), (5, 1, 4), (0, 3, 0), (-3, 2, 4), (0, 0, 3), (0, -1, 3)]
+    ends = [I64_MIN, I64_MIN + 1, -I64_MAX, -3, 0, 1, 5, I64_MAX - 2, I64_MAX - 1, I64_MAX]
+    steps = [1, 2, 5, 2 ** 62, I64_MAX]
+    for s0 in ends:
+        for e0 in ends:
+            for st0 in steps:
+                n = 0 if s0 > e0 else (e0 - s0) // st0 + 1
+                if n <= 40:
+                    triples.append((s0, st0, e0))
     cases, meta = [], []
-    for (s, st_, e) in [(0, 1, 3), (1, 2, 10), (5, 1, 4), (0, 3, 0), (I64_MAX - 2, 1, I64_MAX), (I64_MAX - 5, 2, I64_MAX), (I64_MAX, 1, I64_MAX),
-                        (I64_MAX - 1, 5, I64_MAX), (-3, 2, 4), (0, 0, 3), (0, -1, 3)]:
+    for (s, st_, e) in triples:
         src = 'let x = %s:%s:%s;' % (lit(s), lit(st_), lit(e)) if st_ != 1 else 'let x = %s:%s;' % (lit(s), lit(e))
         cases.append(src)
         meta.append((s, st_, e))
     res = R.driver('eval', cases)
+    bound = '%d ranges: start/end over 10 edge values incl. i64 extremes x 5 steps (expected length <= 40) + degenerate steps' % len(cases)
     for src, (s, st_, e), (st, out) in zip(cases, meta, res):
         if st_ <= 0:
             ok = st == 'ERR'
@@ -154,10 +163,10 @@ def standin_range_edges(tier, seed):
             got = [int(x) for x in re.findall(r'-?\d+', out.split('=', 1)[1])] if st == 'OK' and '=' in out else None
             ok = st == 'OK' and got == exp
         if not ok:
-            return dict(name='range_edges', bound='%d ranges incl. ends at i64::MAX' % len(cases), cases=len(cases), status='violation',
+            return dict(name='range_edges', bound=bound, cases=len(cases), status='violation',
                         detail='`%s`: expected %s, observed %s %s' % (src, exp, st, out[:200]),
                         input=dict(source=src, expected=str(exp), observed='%s %s' % (st, out[:300]), how='replay driver `eval`'))
-    return dict(name='range_edges', bound='%d ranges incl. ends at i64::MAX' % len(cases), cases=len(cases), status='ok')
+    return dict(name='range_edges', bound=bound, cases=len(cases), status='ok')
 
 
 # ------------------------------------------------------------------ C04: format strings
